@@ -301,7 +301,11 @@ func TestVerifC05(t *testing.T) {
 		res.Evaluations++
 		res.Transitions++
 		before := zzvValueSets(data)
+		fds0 := zzvOpenFDs()
 		out, after, pend := zzvUseDamaged(base, data, use)
+		if fds := zzvOpenFDs(); fds > fds0 && !out.noReturn && out.panicked == "" {
+			res.Violate("descriptor-leak", fmt.Sprintf("%d file descriptors are left open after the process closed its counter file (damaged file: %s)", fds-fds0, desc), map[string]any{"case": desc})
+		}
 		class := "returned"
 		switch {
 		case out.noReturn:
@@ -493,4 +497,13 @@ func zzvReadCapped(path string) []byte {
 	n, _ := f.ReadAt(buf, 0)
 	n -= n % ref.CFPage
 	return buf[:n]
+}
+
+// zzvOpenFDs counts the process's open file descriptors.
+func zzvOpenFDs() int {
+	ents, err := os.ReadDir("/proc/self/fd")
+	if err != nil {
+		return 0
+	}
+	return len(ents)
 }
